@@ -535,6 +535,10 @@ class Effects:
             al = self.repo.local_alias(e.value.id, fi)
             if isinstance(al, ast.Attribute) and unparse(al) == "self.stack":
                 base = "self.stack"
+            elif isinstance(al, ast.Attribute) and unparse(al).split(".")[0] in ("self", "cls") and e.value.id not in fi.params():
+                # a hoisted table / field (`num2func = self.num2func`): analyse the access on the field itself
+                e = ast.copy_location(ast.Subscript(value=al, slice=e.slice, ctx=e.ctx), e)
+                base = unparse(e.value)
         key = unparse(e.slice)
         site = {"site": f"{fi.module.rel}:{e.lineno} {fi.short}", "construct": norm(e), "kind": "subscript"}
         if base == "self.stack" and not store:
@@ -609,6 +613,12 @@ class Effects:
             al = self.repo.local_alias(fn.value.id, fi)
             if isinstance(al, ast.Attribute) and unparse(al).startswith(("self.", "cls.")):
                 fn = ast.copy_location(ast.Attribute(value=al, attr=fn.attr, ctx=ast.Load()), fn)
+                c = ast.copy_location(ast.Call(func=fn, args=c.args, keywords=c.keywords), c)
+        if isinstance(fn, ast.Name) and (fi.qualname, fn.id) not in self.dynamic:
+            # a local bound once to a method/function reference (`read = self.stream.read`): analyse the call as that
+            al = self.repo.local_alias(fn.id, fi)
+            if isinstance(al, ast.Attribute) and unparse(al).split(".")[0] in ("self", "cls"):
+                fn = ast.copy_location(al, fn)
                 c = ast.copy_location(ast.Call(func=fn, args=c.args, keywords=c.keywords), c)
         fname = unparse(fn)
         # receiver and arguments first
